@@ -189,8 +189,9 @@ func checkFieldAssignment(
 		return nil
 	}
 
+	receiverType = types.Unalias(receiverType)
 	if ptr, ok := receiverType.(*types.Pointer); ok {
-		receiverType = ptr.Elem()
+		receiverType = types.Unalias(ptr.Elem())
 	}
 
 	named, ok := receiverType.(*types.Named)
@@ -243,8 +244,9 @@ func checkIndexAssignment(
 		return nil
 	}
 
+	receiverType = types.Unalias(receiverType)
 	if ptr, ok := receiverType.(*types.Pointer); ok {
-		receiverType = ptr.Elem()
+		receiverType = types.Unalias(ptr.Elem())
 	}
 
 	named, ok := receiverType.(*types.Named)
@@ -319,8 +321,9 @@ func checkFieldIncDec(
 		return nil
 	}
 
+	receiverType = types.Unalias(receiverType)
 	if ptr, ok := receiverType.(*types.Pointer); ok {
-		receiverType = ptr.Elem()
+		receiverType = types.Unalias(ptr.Elem())
 	}
 
 	named, ok := receiverType.(*types.Named)
@@ -440,8 +443,9 @@ func checkCompoundLHS(
 		return nil
 	}
 
+	receiverType = types.Unalias(receiverType)
 	if ptr, ok := receiverType.(*types.Pointer); ok {
-		receiverType = ptr.Elem()
+		receiverType = types.Unalias(ptr.Elem())
 	}
 
 	named, ok := receiverType.(*types.Named)
